@@ -3,18 +3,77 @@ import os, re, collections
 from vlib import core, cases, libs, shrink
 
 LEVEL = "proof"
-PROPS = ["MV/Props/C01a.lean"]
+PROPS = ["MV/Props/C01a.lean", "MV/Props/C01b.lean"]
 ASSUMPTIONS = [
     "proved (all meshes): checkMesh = ok <=> Closed2Manifold (sound and complete oracle), invariance of Closed2Manifold under triangle permutation/rotation, injective vertex relabelling and compaction, Euler arithmetic; "
     "CreateHalfedges yields PairInv/NoDupEdge for every closed 2-manifold input and removes exactly opposed triangle pairs (duplicate-free case; the general duplicated-edge case is stated, kept as partial, and covered by exact differential runs)",
-    "PARTIAL: the per-operation invariants of the edge-collapse/swap/dedupe primitives, face assembly and subdivision are not yet proved; for them the property is decided per run by piping EVERY object returned by seeded API programs through the verified checker",
+    "proved (all halfedge states, all array sizes, under explicit decidable local preconditions): PairUp, CollapseTri, RemoveIfFolded keep CheckHalfedges (`PairInv`, in the frame form `PairInvExcept` for the states inside an operation), UpdateVert relabels exactly the walked fan, the executable `checkPairInv` decides `PairInv`; see MV/Props/C01b.lean for FormLoop / CollapseEdge (stated in full, proved for the cases named there)",
+    "the edge-operation model (MV/Model/EdgeOp.lean: PairUp, UpdateVert, CollapseTri, RemoveIfFolded, FormLoop, CollapseEdge/CollapseEdge2, SwapEdge, DedupeEdge, SplitPinchedVerts serial) is tied to src/edge_op.cpp by op-level replay through the MANIFOLD_VERIF hook onTopoOp: entry state + arguments + geometric decisions in, exit arrays compared exactly, on meshes of <= 400 halfedges; larger meshes and the parallel SplitPinchedVerts branch are not replayed",
+    "PARTIAL: FormLoop inside CollapseEdge/SwapEdge, SwapEdge, DedupeEdge, SplitPinchedVerts, face assembly and subdivision have no all-states invariant proof; for them the property is decided per run: `checkPairInv` on every replayed top-level exit state, and EVERY object returned by seeded API programs goes through the verified mesh checker",
     "the halfedge model is tied to src/impl.cpp by calling the real Impl::CreateHalfedges on seeded triangle soups (balanced, with duplicated edges and opposed pairs) and comparing the three arrays exactly",
 ]
 
 
+def topo_replay(ctx, exe_api):
+    """Family (c): every call of an edge_op.cpp primitive on a small mesh, replayed by the Lean model."""
+    try:
+        exe_t = core.compile_harness("c01_topo", [os.path.join(core.ROOT, "harness", "c01_topo.cpp")], libs.cxx_flags("ser"), libs=libs.link_flags("ser"))
+    except core.BuildBroken as e:
+        raise core.BuildBroken("c01_topo needs the MANIFOLD_VERIF hook `onTopoOp` (patch 01-topo-op-hook.diff) in src/verif_hooks.h and src/edge_op.cpp\n" + str(e))
+    P = 160 if ctx.tier == "quick" else 2500
+    p = core.sh([exe_t, str(P)], env={"VERIF_SEED": str(ctx.seed), "VERIF_TIER": ctx.tier}, timeout=3600)
+    cs, stats = core.parse_cases(p.stdout)
+    if p.returncode != 0 and cs and not cs[-1]["exp"]:
+        cs.pop()   # block cut short by the crash
+    prog = collections.defaultdict(list)
+    for m in re.finditer(r"^PROG (\d+)\.(\d+) (.*)$", p.stdout, re.M):
+        prog[int(m.group(1))].append(m.group(3))
+
+    def search(ctx, c):
+        # model != implementation on one operation: look for a failing input of the PROPERTY in the program it came from
+        pi = int(re.match(r"t(\d+)\.", c["tag"]).group(1))
+        steps = prog[pi]
+        top = [x for x in cs if x["tag"].startswith("t%d." % pi) and not x["prop"].startswith("ok")]
+        if top:
+            return {"what": "top-level operation left a non-manifold halfedge structure", "program": steps, "case": top[0]["tag"], "oracle": top[0]["prop"],
+                    "request": top[0]["req"], "replay_cmd": "build/h/c01_topo 0 <file with the program lines>"}
+        rc, cs2, _ = shrink.replay(exe_api, steps, os.path.join(core.OUT, "shrink"))
+        rq = [x for x in cs2 if x["req"]]
+        an = core.driver_run([x["req"] for x in rq]) if rq else []
+        badm = [(x, a) for x, a in zip(rq, an) if a.strip() != x["exp"].strip()]
+        badp = [x for x in cs2 if not x["prop"].startswith("ok")]
+        if rc != 0 or badm or badp:
+            return {"what": "the program containing the mismatching operation returns an object that fails C01", "program": steps, "rc": rc,
+                    "verified_checker": [(x["tag"], a) for x, a in badm][:5], "oracle": [x["tag"] + " " + x["prop"] for x in badp][:5],
+                    "replay_cmd": "build/h/c01_api 0 0 <file with the program lines>"}
+        return None
+    ct = cases.correspond(ctx, cs, "edge_op.cpp primitives vs MV.EdgeOp model (start/paired/prop arrays after each operation, CheckHalfedges verdict)", search=search)
+    if p.returncode != 0:
+        # every operation before the crash replayed exactly and passed the gate: report the crash itself, with the program
+        progs = sorted(prog)
+        last = [x[2] for x in re.findall(r"^PROG (\d+)\.(\d+) (.*)$", p.stdout, re.M) if int(x[0]) == (progs[-1] if progs else -1)]
+        rp = core.write_replay(ctx.pid, "harness-crash", {"cmd": [exe_t, str(P)], "env": {"VERIF_SEED": ctx.seed}, "rc": p.returncode, "signal": p.returncode - 128 if p.returncode > 128 else -p.returncode,
+                                                         "last_case_before_crash": cs[-1]["tag"] if cs else None, "last_api_program": last, "stderr_tail": p.stderr[-3000:]})
+        raise core.Violation("c01_topo: the real library crashed or hung (rc=%d; 142 = a loop around a vertex never closed) while editing a small mesh, after %d operations that replayed exactly" % (p.returncode, len(cs)), rp)
+    eff = collections.Counter(); top = collections.Counter(); sizes = []
+    for c in cs:
+        t = c["tag"].split(); k = t[1]
+        rq = c["req"].split(); na = int(rq[2]); pre = rq[3 + na:]; post = c["exp"].replace("|", "").split()
+        if pre[3:] != post[5:-4] or pre[:3] != post[2:5]:
+            eff[k] += 1
+        if t[2] == "d0":
+            top[k] += 1
+        sizes.append(int(pre[2]))
+    ct.update({"programs": P, "ops_changing_state": dict(eff), "toplevel_ops": dict(top), "max_halfedges": max(sizes) if sizes else 0,
+               "median_halfedges": sorted(sizes)[len(sizes) // 2] if sizes else 0, "stats": stats,
+               "toplevel_exit_states_passing_checkPairInv": sum(top.values()),
+               "rule": "one case per call of a modelled primitive on a mesh of <= 400 halfedges during Booleans of lattice boxes / low-poly spheres, imports of non-2-manifold soups, Simplify/SetTolerance, SmoothOut+Refine; identical (op, pre-state) requests are emitted once"})
+    return ct
+
+
 def run(ctx):
-    cov = core.proof_gate(ctx.pid, PROPS, ["MV.Props.C01a"] if ctx.tier == "thorough" else None)
-    cov["checker_cmd"] = "cd lean && lake build MV mvdriver && lake env lean <#print axioms for every theorem of MV/Props/C01a.lean>"
+    cov = core.proof_gate(ctx.pid, PROPS, ["MV.Props.C01a", "MV.Props.C01b"] if ctx.tier == "thorough" else None)
+    cov["checker_cmd"] = "cd lean && lake build MV mvdriver && lake env lean <#print axioms for every theorem of MV/Props/C01a.lean, MV/Props/C01b.lean>"
     cov["trusted_base"] = core.TRUSTED_BASE
     libs.build("ser")
     # (a) CreateHalfedges: model vs real code, exact
@@ -23,6 +82,8 @@ def run(ctx):
     ch = cases.correspond(ctx, cs_h, "Impl::CreateHalfedges vs MV.Halfedge model (start/paired/prop arrays)")
     # (b) API programs through the verified checker
     exe = core.compile_harness("c01_api", [os.path.join(core.ROOT, "harness", "c01_api.cpp")], libs.cxx_flags("ser"), libs=libs.link_flags("ser"))
+    # (c) op-level replay of the topological editing primitives (hook onTopoOp) against MV.EdgeOp
+    ct = topo_replay(ctx, exe)
     # corpus of minimised past failures runs first
     corpus_dir = os.path.join(core.ROOT, "corpus", "C01")
     ncorpus = 0
@@ -82,8 +143,9 @@ def run(ctx):
         ctx.finding(key, "C01 fails after `%s`: %s" % (op, why), {"why": why, "program": small, "essential_steps": live, "case": c["tag"],
                                                                    "replay_cmd": "build/h/c01_api 0 0 <file with the program lines>"})
     ops = collections.Counter(c["tag"].split()[1] for c in cs)
-    cov.update({"evaluations": len(cs) + ch["evaluations"], "distinct_nontrivial": len({core.digest(c["req"]) for c in reqs}) + ch["distinct_nontrivial"],
+    cov.update({"evaluations": len(cs) + ch["evaluations"] + ct["evaluations"], "distinct_nontrivial": len({core.digest(c["req"]) for c in reqs}) + ch["distinct_nontrivial"] + ct["distinct_nontrivial"],
                 "objects_checked": len(cs), "objects_through_verified_checker": len(reqs), "halfedge_cases": ch["evaluations"],
+                "topo_replay": ct, "kinds": ct["kinds"],
                 "programs": P, "steps_per_program": L, "programs_crashed": len(crashes), "corpus_programs": ncorpus, "ops": dict(ops),
                 "rule": "programs of %d steps over 40 public operations, two thirds on the integer lattice (coincident faces, A+A, A-A, shared edges/vertices); every object returned by every step is exported and checked; "
                         "distinct = distinct exported meshes (request lines)" % L,
